@@ -571,6 +571,14 @@ class EndpointResponseHandlerGenerator:
                 writer.write_line("yield chunk")
                 writer.dedent()
                 writer.write_line("return  # Explicit return for async generator")
+            elif self._is_ndjson(strategy.response_ir):
+                # Newline-delimited JSON: one JSON document per line (no SSE framing)
+                context.add_import(f"{context.core_package_name}.streaming_helpers", "iter_ndjson")
+                writer.write_line("async for record in iter_ndjson(response):")
+                writer.indent()
+                writer.write_line("yield record")
+                writer.dedent()
+                writer.write_line("return  # Explicit return for async generator")
             else:
                 # Handle other streaming types
                 context.add_plain_import("json")
@@ -605,6 +613,14 @@ class EndpointResponseHandlerGenerator:
         else:
             context.add_import("typing", "cast")
             writer.write_line(f"return cast({strategy.return_type}, {data_expr})")
+
+    @staticmethod
+    def _is_ndjson(response_ir: IRResponse | None) -> bool:
+        """True when the response is declared as newline-delimited JSON (application/x-ndjson, application/jsonl, ...)."""
+        media_types = list(response_ir.content) if response_ir is not None and response_ir.content else []
+        return bool(media_types) and all(
+            any(marker in media_type.lower() for marker in ("ndjson", "jsonl", "json-seq", "jsonlines")) for media_type in media_types
+        )
 
     @staticmethod
     def _raw_body_expression(response_ir: IRResponse | None, python_type: str) -> str | None:
